@@ -714,7 +714,7 @@ func c15NonNil(c *Ctx) {
 	c.Rule("R11 nonnil: in json, hclsyntax and hclwrite, wherever a method is invoked on, a field taken of, or a pointer dereferenced from (a result of) a call of a function of the same package without a dominating nil test, that result is structurally never nil, or at least no nil constant can flow into it (results about which nothing is known — a parameter handed through, a loaded field — are not decided): every return of the callee yields a boxed concrete value, an allocation, a value under its own != nil test, or such a result of another function (greatest fixed point over recursion)")
 	e := newNonNilEngine(c.P)
 	n, skipped := 0, 0
-	for _, s := range e.sites(c.P.pkgFuncs("json", "hclsyntax", "hclwrite")) {
+	for _, s := range e.sites(c.P.pkgFuncs(c.Scope("json", "hclsyntax", "hclwrite")...)) {
 		if s.undecided {
 			skipped++
 			continue
